@@ -185,6 +185,22 @@ def c05_body(cfg):
                 px = [idx_seq(nodes, g) for g in part] if which in ("group", "zigzag") else idx_seq(nodes, part)
                 if px != exp[which][: len(px)] or len(px) != min(k, len(exp[which])):
                     return {"why": "partial consumption is not a prefix", "iter": which, "pv": pv, "start": s, "got": px}
+            # one iterator object consumed in several steps (for/break, islice, zip): every node still exactly once
+            it = ITERS[which](nodes[s])
+            seen = []
+            for x in it:
+                seen.append(x)
+                break
+            for x in it:
+                seen.append(x)
+            sx = [idx_seq(nodes, g) for g in seen] if which in ("group", "zigzag") else idx_seq(nodes, seen)
+            if sx != exp[which]:
+                return {"why": "for/break followed by a second loop over the same iterator", "iter": which, "pv": pv, "start": s, "got": sx, "exp": exp[which]}
+            it = ITERS[which](nodes[s])
+            pairs = [y for pair in zip(it, it) for y in pair]
+            px = [idx_seq(nodes, g) for g in pairs] if which in ("group", "zigzag") else idx_seq(nodes, pairs)
+            if px != exp[which][: len(px)] or len(px) < len(exp[which]) - 1:
+                return {"why": "zip(it, it) over one iterator object", "iter": which, "pv": pv, "start": s, "got": px, "exp": exp[which]}
             if real_map(nodes) != before:
                 return {"why": "tree modified by iteration", "iter": which, "pv": pv}
     return True
